@@ -441,11 +441,15 @@ async fn c18_script(line: &str, pki: &Pki) -> String {
                     }
                 }
                 let (pa, pb) = payloads(&mut rng);
+                // half of the exchanges run against a transport that pushes back on the server's writes (Pending every other
+                // poll_write, at most 1000 bytes otherwise): write_all + flush must still deliver everything
+                c.stats.throttle.set((pa.len() + pb.len()) % 2 == 0);
                 let ok = match (c.stream.as_mut(), &mut c.client) {
                     (Some(srv), Client::RustlsUp(cl)) => spin(Box::pin(exchange(srv, cl, &pa, &pb)), 100_000).unwrap_or(false),
                     (Some(srv), Client::OsslUp(cl)) => spin(Box::pin(exchange(srv, cl, &pa, &pb)), 100_000).unwrap_or(false),
                     _ => false,
                 };
+                c.stats.throttle.set(false);
                 format!("E{k}:{}", ok as u8)
             }
             _ => panic!("bad op {tok}"),
